@@ -345,6 +345,42 @@ def run(ctx):
                "slice of the argument ends at: %s; Instant::now() among them: %s — in_congestion_recovery(sent_time) is "
                "`sent_time <= recovery_start`; the current time is always later, so every ECN-CE increase or loss report would "
                "shrink the window again within the same round trip" % (ends[:8], nows or "no"))
+    # ---------------------------------------------------------------- R9
+    ctx.rule("R9", "the recovery period starts when the congestion event is detected: congestion_recovery_start_time is written from "
+                   "Instant::now() (RFC 9002 B.6), not from the triggering packet's send time — packets of the same flight sent "
+                   "after the lost one must count as sent *during* recovery")
+    ws9 = field_writes(prog, "NewReno", "congestion_recovery_start_time")
+    ws9 = [w for w in ws9 if not w[0].short.endswith("::new")]
+    ctx.floor("R9", "writes of congestion_recovery_start_time outside the constructor", len(ws9), 1)
+    for (b, i, j, p, rv, line) in ws9:
+        ctx.touch(b)
+        ops = rvalue_operands(rv)
+        srcs = []
+        for o in ops:
+            # look inside Some(..)
+            q = op_place(o)
+            if q is not None and len(q) == 1:
+                for (bb, jj, rv2) in b.defs_of(q[0]):
+                    if jj != "term" and rv2[0] == "agg":
+                        for o2 in rv2[2]:
+                            srcs += value_sources(prog, b, o2)
+            srcs += value_sources(prog, b, o)
+        if rv[0] == "agg":
+            for o2 in rv[2]:
+                srcs += value_sources(prog, b, o2)
+        is_none = (rv[0] == "agg" and rv[1].get("variant") == "None") or any(
+            jj != "term" and rv2[0] == "agg" and rv2[1].get("variant") == "None"
+            for o in ops if op_place(o) is not None and len(op_place(o)) == 1 for (bb, jj, rv2) in b.defs_of(op_place(o)[0]))
+        if is_none:
+            continue
+        from_now = any(x[0] == "call" and re.search(r"[Ii]nstant::now$", x[1]) for x in srcs)
+        from_param = sorted(set(".".join(place_fields(x[1])) or "param" for x in srcs if x[0] == "place")) + \
+            sorted(set("%s()" % x[1].split("::")[-1] for x in srcs if x[0] == "call" and not re.search(r"[Ii]nstant::now$", x[1])))
+        ctx.ob("R9", "%s|recovery start := now" % b.short, from_now and not [x for x in srcs if x[0] == "call" and not re.search(r"[Ii]nstant::now$", x[1])] and
+               not any(x[0] == "place" for x in srcs), b.where(line),
+               "value written derives from Instant::now(): %s; other sources: %s — with the lost packet's send time as the start of "
+               "recovery, every other loss (and ack) from the same flight is treated as a new round trip: the window shrinks again "
+               "and also grows while in recovery" % (from_now, from_param or "none"))
     # ---------------------------------------------------------------- R7
     ctx.rule("R7", "a packet is declared lost only if it is still in flight and (sent before the time threshold or at least "
                    "packet_threshold packets older than the largest acknowledged): the state write is reachable only through "
